@@ -1045,6 +1045,11 @@ def run_reaper_threadless(case):
             hres.append(2)
             raise
         hres.append(1 if r else 0)
+        k = st['cur'].get('ev_index') if st['cur'] else None
+        if not r and k is not None and d.executed[k].get('slow'):
+            # the work's OWN handle_events really suspends here (a plugin hook awaiting something slower than the loop's
+            # 1 ms wait): its task stays in Threadless.unfinished while the connection goes idle (round-4 seed C20-r4-2)
+            await asyncio.sleep(0.005)
         return r
     d.h.handle_events = handle_events
     loop = asyncio.new_event_loop()
